@@ -583,10 +583,11 @@ SCHEMES.update({
     'ecss': Spec('C05', 4, dict(pk='ec', e='bn', s='bn', msg='bytes'),
                  generic_sig_oracle(ok_malleations=(('pk:v_neg', 's:v_negmod'),))),
     'rsasig': Spec('C05', 3, dict(sig='bytes', msg='bytes'), o_rsasig, rsa=True, opts=hopts,
-                   extra_faults=[('sig', 'v_addmod'), ('sig', 'prefix0')]),
+                   extra_faults=[('sig', 'v_addmod'), ('sig', 'prefix0'), ('sig', 'v_encflip'), ('sig', 'v_encflip'), ('sig', 'v_encflip')]),
     'bls': Spec('C05', 4, dict(pk='g2', sig='g1', msg='bytes'), o_bls, pc=True),
     'rsaenc': Spec('C06', 3, dict(ct='bytes'), o_rsaenc, rsa=True,
-                   opts=lambda rng: dict(mlen=rng.choice([1, 2, 10, 29, 30, 31, 60, 61, 62, 63, 85, 117, 0, 200]))),
+                   opts=lambda rng: dict(mlen=rng.choice([1, 2, 10, 29, 30, 31, 60, 61, 62, 63, 85, 117, 0, 200])),
+                   extra_faults=[('ct', 'v_encflip')]),
     'ecdh': Spec('C06', 5, dict(qa='ec', qb='ec'), o_ecdh, opts=lambda rng: dict(klen=rng.choice([16, 32, 33, 64, 1]))),
     'ecmqv': Spec('C06', 5, dict(qa1='ec', qa2='ec', qb1='ec', qb2='ec'), o_ecmqv,
                   opts=lambda rng: dict(klen=rng.choice([16, 32, 48]))),
